@@ -385,8 +385,13 @@ impl SocksResponse {
     }
     async fn read_v4<IO: RW>(socket: &mut IO) -> Result<Self, Error> {
         let cmd = socket.read_u8().await.context("read cmd")?;
-        // map v4 reply code to v5: 90 means request granted (mirrors write_v4)
-        let cmd = if cmd == 90 { SOCKS_REPLY_OK } else { cmd };
+        // map v4 reply code to v5: only 90 means request granted (mirrors write_v4);
+        // any other code is a refusal, also one that happens to equal the v5 success code
+        let cmd = match cmd {
+            90 => SOCKS_REPLY_OK,
+            SOCKS_REPLY_OK => 1,
+            other => other,
+        };
         let dport = socket.read_u16().await.context("read port")?;
         let dst = socket.read_u32().await.context("read dst")?;
         let target = (dst, dport).into();
